@@ -14,7 +14,7 @@ ALL9 = ["PASS", "FAIL", "ERROR", "WARN", "SKIP", "CANCEL", "INTERRUPTED", "NONE"
 def plan(name: str, scenario: trav.Scenario, mons: list[Any], bounds: dict[str, Any] | None = None, **cfg: Any) -> dict[str, Any]:
     extra = {k: cfg.pop(k) for k in ("setup", "traverse_params", "split_depth", "min_tasks") if k in cfg}
     config = trav.Config(**cfg)
-    b = {"scenario": f"{scenario.restriction} on {scenario.nets} ({'lazy' if scenario.lazy else 'eager'} parsing)", "K": config.K, "nonpassing_executions": f"<= {config.max_nonpass}", "statuses": config.statuses, "pool_bits": config.pool_bits, "pool_states": config.pool_states, "pool_fixed": config.pool_fixed}
+    b = {"scenario": (f"{scenario.restriction} on {scenario.nets} ({'lazy' if scenario.lazy else 'eager'} parsing)" if not isinstance(scenario, trav.ToolScenario) else f"tool {scenario.tool} vms={sorted(scenario.vm_strs)} nets={scenario.nets} {scenario.vms_params}"), "K": config.K, "nonpassing_executions": f"<= {config.max_nonpass}", "statuses": config.statuses, "pool_bits": config.pool_bits, "pool_states": config.pool_states, "pool_fixed": config.pool_fixed}
     b.update(scenario.params)
     b.update(bounds or {})
     return dict(name=name, scenario=scenario, config=config, monitors=mons, bounds=b, **extra)
